@@ -49,6 +49,10 @@ def configs(tier, seed):
         for w in WIRINGS:
             add(n=3, kernel=k, wiring=w, outlier_prior=0.0, N=2, threshold=0.5, alpha=1.0)
             add(n=3, kernel=k, wiring=w, outlier_prior=0.2, N=2, threshold=0.5, alpha=1.0, grid=3)
+    # the same kernel object re-used after alpha was assigned in place (memos warm from another alpha)
+    for k in ("semi-adapted", "fully-adapted", "bootstrap"):
+        add(n=2, kernel=k, wiring="library", outlier_prior=0.2, N=2, threshold=0.5, alpha=0.5, warm_other_alpha=2.9)
+        add(n=3, kernel=k, wiring="library", outlier_prior=0.0, N=2, threshold=0.5, alpha=0.5, warm_other_alpha=2.9, grid=3)
     # n = 4 once in the quick tier: the smallest size at which a clone can have two children one of
     # which has descendants (the shape several order-counting defects need)
     add(n=4, kernel="fully-adapted", wiring="library", outlier_prior=0.0, N=2, threshold=0.5, alpha=1.0, grid=3)
